@@ -428,7 +428,10 @@ fn run_case(case: &Case, scratch: Option<&Path>) -> Outcome {
                 Got::None => false,
                 Got::Err { line, io, .. } => *io || line.is_none() || *line == Some(e.line),
                 Got::Rec { lo, hi, p, q, .. } => match e.row.map(|r| &case.file.rows[r].body) {
-                    Some(Body::Good(g)) => (g.lo, g.hi, g.p, g.q) == (*lo, *hi, *p, *q) && expected.get(ei + 1).map(|n| judge(&n.exp, &got, n.line).is_some()).unwrap_or(true),
+                    // ... unless the next line is an intact row that this record fits just as well
+                    // (a following line that is itself corrupted fits anything and decides nothing)
+                    Some(Body::Good(g)) => (g.lo, g.hi, g.p, g.q) == (*lo, *hi, *p, *q)
+                        && !expected.get(ei + 1).map(|n| !n.optional && judge(&n.exp, &got, n.line).is_none()).unwrap_or(false),
                     _ => false,
                 },
             };
